@@ -355,6 +355,9 @@ class AimRandom(np.random.RandomState):
 
     def random(self, size=None):
         n = 1 if size is None else int(size)
+        if self.drawn > 12 * self.budget + 4000:
+            # every block has a valid candidate and the round-robin has offered each of them many times
+            raise RuntimeError('redraw loop did not terminate')
         idx = []
         for _ in range(n):
             if self.drawn > self.budget:
@@ -746,6 +749,9 @@ def run_mc_case(ctx, env, case, exprs, checks):
     except Exception as ex:  # noqa: BLE001
         ctx.violation(site + '.mu2flux', 'raises-' + type(ex).__name__, str(ex)[:200], case=case)
     # ---- the model
+    if impl == ['Err', 'RuntimeError']:
+        ctx.count('B:redraw-did-not-terminate')     # reported above as a violation; no model run on 10^5 draws
+        return
     exprs.append(mc_term(case, built, post_tab, rs.batches, len(rs.batches) + 3, ranges_pos))
     checks.append(('mc', case, (impl_tbl, [float(r['weight']) for r in tbl], impl)))
 
